@@ -206,7 +206,12 @@ theorem applyOp_unw (s : Store) (op : Op) (h : Inv s) (o : Ord s) (u : Unw s) : 
   | setNodeMeta n md => exact u.of_eq (f2 n md).1 (f2 n md).2
   | setEdgeMeta e md => exact u.of_eq (f3 e md).1 (f3 e md).2
   | setHMeta md => exact u.of_eq rfl rfl
-  | setAttrH a v => exact u.of_eq rfl rfl
+  | setAttrH a v =>
+    show Unw (setAttrHOp s a v).1
+    unfold setAttrHOp
+    split
+    · exact u
+    · exact u.of_eq rfl rfl
   | setAttrNode n a v => exact u.of_eq (f4 n a v).1 (f4 n a v).2
   | setAttrEdge e a v => exact u.of_eq (f5 e a v).1 (f5 e a v).2
   | delAttrNode n a => exact u.of_eq (f6 n a).1 (f6 n a).2
